@@ -865,6 +865,8 @@ def check():
         c09.graph_lemmas(o, Lg, Lg.smt, M, E, app_structural, lambda name, model: app_bad.append(name))
         # ... and the tables above stand for "unification = equality of kinds": one unification step accepts two
         # constant tags only if they are equal (lemmas shared with C07)
+        # the digest of a node is the cache key of evaluated declarations: it must tell the nodes of two modules apart
+        c09.digest_lemmas(o, app_structural)
         import props.c07 as c07
         ubad = []
         c07.unify_step_lemmas(o, Lg, Lg.smt, M, E, ubad)
@@ -891,6 +893,17 @@ MUST_NOT_CRASH = {
 }
 
 
+# two modules, each with a recursive declaration of another kind as its first statement: the names of their components are
+# digests of (module, node) - whenever two such nodes sit at the same place of their trees only the module tells them apart.
+# A family of shapes, so that some pairs do sit at the same place.
+_HOME = "let home = / on get -> { 'self home };\nuse \"shapes.oal\" as s;\nres /tree on get -> <s.node>;\nres home;\n"
+for _k, _shape in enumerate(("{ 'name! str, 'children [node] }", "{ 'name str, 'children [node] }", "{ 'children [node] }", "{ 'n num, 'm num, 'children [node] }", "[node]",
+                             "{ 'name! str, 'kids [node], 'up? node }", "{ 'a { 'b [node] } }", "{ 'name! str `title: \"t\"`, 'children [node] }")):
+    MUST_NOT_CRASH["two-modules-recursive-relation-and-schema-%d" % _k] = {"main.oal": _HOME, "shapes.oal": "let node = %s;\n" % _shape}
+    MUST_NOT_CRASH["two-modules-recursive-schema-and-relation-%d" % _k] = {
+        "main.oal": "let node = %s;\nuse \"links.oal\" as l;\nres /tree on get -> <node>;\nres l.home;\n" % _shape, "links.oal": "let home = / on get -> { 'self home };\n"}
+
+
 EMITTER_PROGRAMS = {
     "alias-of-reference-in-recursive-component": "let @node = { 'value str, 'next link };\nlet link  = @node;\nres /nodes on get -> <[@node]>;\n",
     "rec-of-reference-and-rec-of-rec": "let @a = { 'n num };\nlet r = rec x @a;\nlet s = rec x (rec y { 'x? x, 'y? y });\nres /r on get -> <r> :: <status=404, s>;\n",
@@ -901,6 +914,89 @@ EMITTER_PROGRAMS = {
     "rec-inside-functions": "let f x = rec r { 'v x, 'next? r, 'alias g r };\nlet g y = y;\nlet h = f num;\nlet @k = h;\n"
                             "res /h on get -> <h> :: <status=404, @k> :: <status=500, f str>;\n",
 }
+
+
+_NESTING = {}
+
+
+def nesting_kinds(MO, E):
+    """SchemaExpr variants whose emitter (the function value_schema sends them to) can reach Builder::schema /
+    reference_schema / value_schema again - read from the call graph of oal-openapi's MIR."""
+    if "v" in _NESTING:
+        return _NESTING["v"]
+    import mirparse as mp
+    short = {}
+    for f in MO.funcs:
+        short.setdefault(f.name.split("::")[-1], []).append(f)
+
+    def callees(f):
+        out = set()
+        for b in f.blocks.values():
+            if b.cleanup or not b.term:
+                continue
+            pt = mp.stmts_of(b)[1]
+            if pt[0] == "call":
+                nm = re.sub(r"::<.*$", "", str(pt[2])).split("::")[-1]
+                if nm in short:
+                    out.add(nm)
+        for c in MO.funcs:
+            if c.name.startswith(f.name + "::{closure"):
+                out |= callees(c)
+        return out
+    reach = {}
+
+    def closure(nm, seen):
+        if nm in seen:
+            return set()
+        seen.add(nm)
+        out = set()
+        for f in short.get(nm, []):
+            for c in callees(f):
+                out.add(c)
+                out |= closure(c, seen)
+        return out
+    res = []
+    try:
+        f_vs = MO.one(r"::value_schema$")
+        ex = mirlib.executor([MO])
+        for p in ex.run(f_vs, arg_names=["self", "s"]):
+            if p.kind != "return":
+                continue
+            emit = [e[1].split("::")[-1] for e in p.calls() if e[1].startswith("Builder::") and e[1].endswith("_schema")]
+            expr0 = ms.proj(("deref", ("sym", "s")), ("f", 0), E)
+            dv = [v for a, op, v in p.pc if op == "==" and a == ms.disc_of(expr0, E)]
+            if not emit or not dv:
+                continue
+            for em in emit:
+                r = closure(em, set())
+                if r & {"schema", "reference_schema", "value_schema"}:
+                    for vname, idx in ((n, E.index("SchemaExpr", n)) for n in ("Num", "Str", "Bool", "Int", "Rel", "Uri", "Array", "Object", "Op", "Ref")):
+                        if idx in dv and vname not in res:
+                            res.append(vname)
+    except Exception:
+        pass
+    _NESTING["v"] = res
+    return res
+
+
+def maybe_inline_lemmas(o, L, S, MO, E, on_sat):
+    f_mi = MO.one(r"::maybe_inline$")
+    REF, OPK = E.index("SchemaExpr", "Ref"), E.index("SchemaExpr", "Op")
+    # maybe_inline: Some only for the six inlinable kinds (never Ref, never Op)
+    ex = mirlib.executor([MO])
+    for p in ex.run(f_mi, arg_names=["self", "name"]):
+        if p.kind == "return" and p.ret[0] == "variant" and p.ret[2] == "Some":
+            g = p.calls("IndexMap::get")
+            if g:
+                sch = ms.proj(ms.proj(ex.raw_deref(p.state, ms.proj(ms.proj(g[0][3], ("v", "Some"), E), ("f", 0), E)), ("v", "Schema"), E), ("f", 0), E)
+                expr = ms.proj(sch, ("f", 0), E)
+                L.expect_unsat("maybe_inline: Some(s) only when s is neither a Ref nor an Op", S.pc(p.pc) + [z3.Or(S.disc(S.v(expr)) == REF, S.disc(S.v(expr)) == OPK)], on_sat)
+                # ... and, more to the point, only when the emitter of that kind emits no nested schema: an inlined
+                # container on a cycle is an emitter that never reaches a $ref (a stack overflow, not a document)
+                for vname in nesting_kinds(MO, E):
+                    vi = E.index("SchemaExpr", vname)
+                    if vi is not None:
+                        L.expect_unsat("maybe_inline: never inlines a %s (its emitter goes on into nested schemas)" % vname, S.pc(p.pc) + [S.disc(S.v(expr)) == vi], on_sat)
 
 
 def emitter_lemmas(o, M, MO, extra_bad=()):
@@ -938,15 +1034,7 @@ def emitter_lemmas(o, M, MO, extra_bad=()):
         if vs:
             expr = ms.proj(("deref", ("sym", "s")), ("f", 0), E)
             L.expect_unsat("schema(): value_schema is never called on a SchemaExpr::Ref", S.pc(p.pc) + [S.disc(S.v(expr)) == REF], on_sat)
-    # maybe_inline: Some only for the six inlinable kinds (never Ref, never Op)
-    ex = mirlib.executor([MO])
-    for p in ex.run(f_mi, arg_names=["self", "name"]):
-        if p.kind == "return" and p.ret[0] == "variant" and p.ret[2] == "Some":
-            g = p.calls("IndexMap::get")
-            if g:
-                sch = ms.proj(ms.proj(ex.raw_deref(p.state, ms.proj(ms.proj(g[0][3], ("v", "Some"), E), ("f", 0), E)), ("v", "Schema"), E), ("f", 0), E)
-                expr = ms.proj(sch, ("f", 0), E)
-                L.expect_unsat("maybe_inline: Some(s) only when s is neither a Ref nor an Op", S.pc(p.pc) + [z3.Or(S.disc(S.v(expr)) == REF, S.disc(S.v(expr)) == OPK)], on_sat)
+    maybe_inline_lemmas(o, L, S, MO, E, on_sat)
     # evaluator: Expr::VariadicOp is built only when the operator is not Range
     ex = mirlib.executor([M])
     n = 0
@@ -988,7 +1076,7 @@ def emitter_lemmas(o, M, MO, extra_bad=()):
     # is demanded, inside a recursion. Whatever the verdict, dying after acceptance is the violation
     nrej = 0
     for name, src in MUST_NOT_CRASH.items():
-        r = run_cli(cli, {"main.oal": src}, workdir=os.path.join(rdir, "edge-" + name), timeout=30)
+        r = run_cli(cli, src if isinstance(src, dict) else {"main.oal": src}, workdir=os.path.join(rdir, "edge-" + name), timeout=30)
         nrej += 1
         if crashed(r):
             loc = panic_location(r["out"])
